@@ -1059,3 +1059,135 @@ Lemma filled_keeps r d :
 Proof.
   unfold filled, fill. cbn. repeat split; intros; try (now rewrite H); reflexivity.
 Qed.
+
+(* ---------------------------------------------------------------- to_slurm_options *)
+Definition sp : ascii := " "%char.
+Definition nosp (x : str) : Prop := ~ In sp x.
+
+Lemma nosp_app a b : nosp a -> nosp b -> nosp (a ++ b).
+Proof. unfold nosp. intros Ha Hb H. apply in_app_or in H as [H|H]; auto. Qed.
+Lemma nosp_digits d : Forall (fun c => is_digit c = true) d -> nosp d.
+Proof. apply digits_no. reflexivity. Qed.
+Lemma mem_char_in c x : mem_char c x = true <-> In c x.
+Proof.
+  induction x as [|d x IH]; cbn; [split; [discriminate|tauto]|].
+  rewrite orb_true_iff, IH, Ascii.eqb_eq. split; intros [H|H]; auto.
+Qed.
+Lemma nosp_b x : mem_char sp x = false -> nosp x.
+Proof. intros H Hi. apply mem_char_in in Hi. congruence. Qed.
+
+Lemma uint_str_digits u : Forall (fun c => is_digit c = true) (uint_str u).
+Proof. induction u; cbn; constructor; auto. Qed.
+Lemma nosp_z_str z : nosp (z_str z).
+Proof.
+  destruct z; cbn.
+  - apply nosp_b. reflexivity.
+  - apply nosp_digits, uint_str_digits.
+  - intros [H|H]; [discriminate|]. revert H. apply nosp_digits, uint_str_digits.
+Qed.
+
+Lemma split_join_in toks w : In w toks -> nosp w -> In w (split_char sp (join [sp] toks)).
+Proof.
+  induction toks as [|x t IH]; intros Hin Hw; [destruct Hin|].
+  destruct t as [|y t'].
+  - destruct Hin as [->|[]]. cbn [join]. rewrite (split_char_none sp w Hw). now left.
+  - change (join [sp] (x :: y :: t')) with (x ++ sp :: join [sp] (y :: t')).
+    rewrite split_char_app_gen. apply in_or_app. destruct Hin as [->|Hin].
+    + left. rewrite (split_char_none sp w Hw). now left.
+    + right. now apply IH.
+Qed.
+
+Lemma upper_char_sp : upper_char sp = sp. Proof. reflexivity. Qed.
+
+Lemma unit_nosp u k : unit_exp u k -> nosp u.
+Proof. intros H; destruct H; apply nosp_b; reflexivity. Qed.
+
+Lemma mem_nosp m q : mem_denotes m q -> nosp m /\ m <> [].
+Proof.
+  intros (d1 & d2 & u & k & Hu & [Hn1 Hd1] & Hm & _). split.
+  - intros Hi. assert (Hi' : In sp (upper m)).
+    { unfold upper. rewrite <- upper_char_sp. now apply in_map. }
+    revert Hi'. change (nosp (upper m)).
+    destruct Hm as [[_ ->]|[[_ Hd2] ->]].
+    + apply nosp_app; [now apply nosp_digits|now apply (unit_nosp u k)].
+    + apply nosp_app; [now apply nosp_digits|].
+      change (nosp (["."%char] ++ d2 ++ u)). apply nosp_app; [apply nosp_b; reflexivity|].
+      apply nosp_app; [now apply nosp_digits|now apply (unit_nosp u k)].
+  - intros ->. cbn in Hm. destruct d1; [contradiction|]. destruct Hm as [[_ Hm]|[_ Hm]]; discriminate.
+Qed.
+
+Lemma dd_nosp m : dd m -> nosp m.
+Proof. intros H. apply dd_all_digits in H as [_ H]. now apply nosp_digits. Qed.
+Lemma colon_nosp x : nosp x -> nosp (":"%char :: x).
+Proof. intros H. change (nosp ([":"%char] ++ x)). apply nosp_app; [apply nosp_b; reflexivity|exact H]. Qed.
+
+Lemma time_nosp t n : time_denotes t n -> nosp t /\ t <> [].
+Proof.
+  intros [(m & ss & Hm & Hs & -> & _)|[(h & m & ss & Hh & Hm & Hs & -> & _)|(d & h & m & ss & Hd & Hh & Hm & Hs & -> & _)]].
+  - split; [apply nosp_app; [now apply dd_nosp|apply colon_nosp; now apply dd_nosp]|].
+    destruct Hm as (a & b & -> & _). discriminate.
+  - split; [apply nosp_app; [apply nosp_digits, Hh|apply colon_nosp, nosp_app;
+            [now apply dd_nosp|apply colon_nosp; now apply dd_nosp]]|].
+    destruct Hh as [Hh _]. destruct h; [contradiction|discriminate].
+  - split; [apply nosp_app; [apply nosp_digits, Hd|apply colon_nosp, nosp_app;
+            [now apply dd_nosp|apply colon_nosp, nosp_app; [now apply dd_nosp|apply colon_nosp; now apply dd_nosp]]]|].
+    destruct Hd as [Hd _]. destruct d; [contradiction|discriminate].
+Qed.
+
+Lemma truthy_of_pos z : (0 < z)%Z -> truthy_z (Some z) = true.
+Proof. intros H. cbn. apply negb_true_iff, Z.eqb_neq. lia. Qed.
+
+(* every set quantity (gpus = 0 excepted) is one of the emitted options, as a blank-free word *)
+Lemma quantity_word_emitted r w : valid_res r -> gpus r <> Some 0%Z ->
+  In w (quantity_words r) -> In w (slurm_tokens r) /\ nosp w.
+Proof.
+  intros (Vc & Vg & Vn & Vcn & Vm & Vt & _) Hg0. unfold quantity_words, slurm_tokens.
+  rewrite !in_app_iff. intros [H|[H|[H|[H|[H|H]]]]].
+  - destruct (cpus r) as [c|] eqn:E; [|destruct H]. destruct H as [<-|[]]. cbn in Vc.
+    rewrite (truthy_of_pos c Vc). split; [left; now left|].
+    apply nosp_app; [apply nosp_b; reflexivity|apply nosp_z_str].
+  - destruct (gpus r) as [g|] eqn:E; [|destruct H]. destruct H as [<-|[]]. cbn in Vg.
+    assert (Hg : truthy_z (Some g) = true) by (cbn; apply negb_true_iff, Z.eqb_neq; intros ->; now apply Hg0).
+    rewrite Hg. split; [right; left; now left|].
+    apply nosp_app; [apply nosp_b; reflexivity|apply nosp_z_str].
+  - destruct (nodes r) as [n|] eqn:E; [|destruct H]. destruct H as [<-|[]]. cbn in Vn.
+    rewrite (truthy_of_pos n Vn). split; [right; right; left; now left|].
+    apply nosp_app; [apply nosp_b; reflexivity|apply nosp_z_str].
+  - destruct (cpus_per_node r) as [n|] eqn:E; [|destruct H]. destruct H as [<-|[]]. cbn in Vcn.
+    rewrite (truthy_of_pos n Vcn). split; [right; right; right; left; now left|].
+    apply nosp_app; [apply nosp_b; reflexivity|apply nosp_z_str].
+  - destruct (memory r) as [m|] eqn:E; [|destruct H]. destruct H as [<-|[]].
+    destruct (Vm m eq_refl) as [q Hq]. apply mem_nosp in Hq as [Hs Hne].
+    assert (Ht : truthy_s (Some m) = true) by (destruct m; [contradiction|reflexivity]).
+    rewrite Ht. split; [do 4 right; left; now left|].
+    apply nosp_app; [apply nosp_b; reflexivity|exact Hs].
+  - destruct (time r) as [t|] eqn:E; [|destruct H]. destruct H as [<-|[]].
+    destruct (Vt t eq_refl) as [n Hn]. apply time_nosp in Hn as [Hs Hne].
+    assert (Ht : truthy_s (Some t) = true) by (destruct t; [contradiction|reflexivity]).
+    rewrite Ht. split; [do 5 right; left; now left|].
+    apply nosp_app; [apply nosp_b; reflexivity|exact Hs].
+Qed.
+
+Lemma slurm_mentions_all_partial r : valid_res r -> gpus r <> Some 0%Z ->
+  mentions_all r (to_slurm_options r).
+Proof.
+  intros Hv Hg w Hw. destruct (quantity_word_emitted r w Hv Hg Hw) as [Hin Hs].
+  unfold to_slurm_options. now apply split_join_in.
+Qed.
+
+(* Resources(gpus=0): gpus is set, the option string is empty *)
+Lemma slurm_mentions_all_refuted :
+  exists r, valid_res r /\ gpus r = Some 0%Z /\ ~ mentions_all r (to_slurm_options r).
+Proof.
+  exists (mkR None None None None (Some 0%Z) None None [] (s "external")).
+  split; [apply sp_valid_iff; reflexivity|]. split; [reflexivity|].
+  intros H. specialize (H _ (or_introl eq_refl)). vm_compute in H. destruct H as [H|[]]. discriminate.
+Qed.
+
+(* the code before the fix: string order picks the shorter duration *)
+Lemma max_time_prefix_wrong :
+  max_time_prefix (s "2:00:00") (s "10:00:00") = s "2:00:00"
+  /\ time_denotes (s "2:00:00") 7200 /\ time_denotes (s "10:00:00") 36000.
+Proof.
+  split; [reflexivity|]. split; apply sp_time_secs_iff; reflexivity.
+Qed.
